@@ -8,17 +8,18 @@ FAMILY = Family(
     'dyn',
     typemap={'K': 'K', 'V': 'V', 'Item': 'Item', 'Level': 'Vec<Item>', 'PGMType': 'PGMType', 'iterator': 'DynIt', 'Iterator': 'DynIt',
              'ApproxPos': 'ApproxPos', 'std::vector<Level>': 'Vec<vec_Item>', 'std::vector<PGMType>': 'Vec<PGMType>',
-             'typename Level::iterator': 'It<Item>', 'typename Level::const_iterator': 'It<Item>'},
+             'typename Level::iterator': 'It<Item>', 'typename Level::const_iterator': 'It<Item>',
+             'std::vector<std::pair<K, V>>': 'Vec<PairKV>', 'std::vector<std::pair<K,V>>': 'Vec<PairKV>', 'PairKV': 'PairKV'},
     classes=[
         ClassDesc('Item', HPP, 'ItemA', packed=True, consts={'tombstone': ('Item_tombstone', 'V')}, methods={'deleted': 'Item_deleted'}),
         ClassDesc('Dyn', HPP, 'DynamicPGMIndex', field_types={'levels': 'Vec<vec_Item>', 'pgms': 'Vec<PGMType>'},
                   methods={'level': 'Dyn_level', 'pgm': 'Dyn_pgm', 'has_pgm': 'Dyn_has_pgm', 'max_size': 'Dyn_max_size',
                            'max_fully_allocated_level': 'Dyn_max_fully_allocated_level', 'ceil_log_base': 'Dyn_ceil_log_base',
                            'ceil_log2': 'Dyn_ceil_log2', 'lower_bound_bl': 'Dyn_lower_bound_bl', 'merge': 'Dyn_merge', 'end': 'Dyn_end',
-                           'find': 'Dyn_find', 'insert': 'Dyn_insert', 'pairwise_merge': 'Dyn_pairwise_merge'}),
+                           'find': 'Dyn_find', 'insert': 'Dyn_insert', 'pairwise_merge': 'Dyn_pairwise_merge', 'range': 'Dyn_range'}),
     ],
     extra_structs={'ApproxPos': {'pos': 'size_t', 'lo': 'size_t', 'hi': 'size_t'}, 'PGMType': {'n': 'size_t', 'stamp': 'size_t'},
-                   'DynIt': {'level': 'uint8_t', 'idx': 'size_t'}, 'vec_Item': {'data': 'Ptr<Item>', 'size': 'size_t', 'cap': 'size_t'}},
+                   'DynIt': {'level': 'uint8_t', 'idx': 'size_t'}, 'PairKV': {'first': 'K', 'second': 'V'}, 'vec_Item': {'data': 'Ptr<Item>', 'size': 'size_t', 'cap': 'size_t'}},
     conv={'Item': 'first'},
     struct_methods={('PGMType', 'search'): FuncInfo('PGMType_search', 'ApproxPos'), ('DynIt', 'DynIt'): FuncInfo('DynIt_make', 'DynIt'),
                     ('PGMType', 'PGMType'): FuncInfo('PGMType_build', 'PGMType', lead_base=(0,))},
@@ -87,3 +88,5 @@ def dinst(k, v):
     base = {'uint32_t': ('uint32_t', 'UINT32_MAX', '0'), 'uint64_t': ('uint64_t', 'UINT64_MAX', '0'), 'int64_t': ('uint64_t', 'INT64_MAX', 'INT64_MIN'),
             'int32_t': ('uint32_t', 'INT32_MAX', 'INT32_MIN')}
     return {'name': '%s_%s' % (k, v), 'defs': {'K': k, 'V': v, 'PGMV_LIMITS_K_max': base[k][1], 'PGMV_LIMITS_K_min': base[k][2], 'PGMV_LIMITS_V_max': base[v][1]}}
+F('Dyn_range', HPP, 'range', 'vec_PairKV Dyn_range(const Dyn *self, K lo, K hi)', ret='Vec<PairKV>', params={'lo': 'K', 'hi': 'K'}, local_vectors_grow=True,
+  must_fire=('throw', 'ternary_lvalue', 'resize_may_grow', 'std_upper_bound'))
